@@ -49,7 +49,7 @@ dial_thread(void *arg)
 	dial_rv[i] = nng_dial(pushers[i], dial_url, NULL, 0);
 	if (dial_rv[i] == 0 && nng_msg_alloc(&m, 0) == 0) {
 		nng_msg_append_u32(m, (uint32_t) i + 1);
-		nng_socket_set_ms(pushers[i], NNG_OPT_SENDTIMEO, 5000);
+		nng_socket_set_ms(pushers[i], NNG_OPT_SENDTIMEO, 8000);
 		if (nng_sendmsg(pushers[i], m, 0) != 0) {
 			nng_msg_free(m);
 		}
@@ -119,7 +119,7 @@ main(int argc, char **argv)
 	for (int i = 0; i < k; i++) {
 		pthread_create(&th[i], NULL, dial_thread, (void *) (intptr_t) i);
 	}
-	nng_socket_set_ms(pull, NNG_OPT_RECVTIMEO, 4000);
+	nng_socket_set_ms(pull, NNG_OPT_RECVTIMEO, 8000);
 	for (int i = 0; i < k; i++) {
 		nng_msg *m;
 		uint32_t v;
